@@ -405,6 +405,34 @@ pub fn install_panic_hook() {
     }));
 }
 /// run `f`; a panic inside the code under test is returned as Err("panic: ..")
+impl Sys {
+    /// a second farm manager with the given configuration (instantiate validation, DESIGN 9.9)
+    #[allow(clippy::too_many_arguments)]
+    pub fn try_instantiate_farm(&mut self, max_farms: u32, min_unlock: u64, max_unlock: u64, expiration: u64, penalty: Decimal) -> Result<Addr, String> {
+        let id = self.app.store_code(c_farm());
+        let owner = self.users[0].clone();
+        let msg = fm::InstantiateMsg {
+            owner: owner.to_string(),
+            epoch_manager_addr: self.epoch.to_string(),
+            fee_collector_addr: self.fee.to_string(),
+            pool_manager_addr: "".to_string(),
+            create_farm_fee: cosmwasm_std::coin(1000, "uom"),
+            max_concurrent_farms: max_farms,
+            max_farm_epoch_buffer: 14,
+            min_unlocking_duration: min_unlock,
+            max_unlocking_duration: max_unlock,
+            farm_expiration_time: expiration,
+            emergency_unlock_penalty: penalty,
+        };
+        let app = &mut self.app;
+        match guarded(std::panic::AssertUnwindSafe(|| app.instantiate_contract(id, owner.clone(), &msg, &[], "farm2", None))) {
+            Ok(Ok(a)) => Ok(a),
+            Ok(Err(e)) => Err(format!("{:#}", e)),
+            Err(p) => Err(format!("panic: {p}")),
+        }
+    }
+}
+
 pub fn guarded<T>(f: impl FnOnce() -> T) -> Result<T, String> {
     QUIET.with(|q| q.set(true));
     let r = std::panic::catch_unwind(std::panic::AssertUnwindSafe(f));
